@@ -129,7 +129,8 @@ def detect(sid, checks):
     json.dump(out, open(f"{SEEDED}/{sid}/detect.json", "w"), indent=1)
 
 
-MISSED_FIRST = {"C19_s3": "C19, C13 (value collections were [float, int] lists) -> caller-owned lists / dicts holding temporal columns (tz-aware Series, datetime64, timedelta64)",
+MISSED_FIRST = {"C07_s3": "C07 (one value column per transform call) -> transform=True over 2-3 value columns with different null patterns (list / dict / frame / 2-D), each column its own trace",
+                "C19_s3": "C19, C13 (value collections were [float, int] lists) -> caller-owned lists / dicts holding temporal columns (tz-aware Series, datetime64, timedelta64)",
                 "C20_s3": "C20 (arrays up to 40 elements) -> every (length, threads) pair up to 160 (thorough 600) rows x 8 threads; invariant BlocksPartition in GBNanops",
                 "C17_s3": "C17 (facade rolling(2) only) -> window 1..3 and min_periods None / 0..window drawn for the facade and the core (this also exposed the genuine defect fixed in c262a57)",
                 "C11_s4": "C11, C13 (a new mask array per call) -> GBObject.Refill: C13's histories keep one mask / values buffer and refill it in place between calls",
